@@ -41,3 +41,65 @@ Print Assumptions C03_cleanup_condition_loop_terminates.
 Theorem C03_cleanup_loop_shrinks : forall (A : Type) (as_lit : A -> option lit) (eqb : A -> A -> bool) (ss : list Mapping) (l l' : list A) (updated : bool), (forall x : A, In x l -> eqb x x = true) -> _remove_superseed_from_list as_lit eqb ss l = Ok (l', updated) -> (updated = true -> Datatypes.length l' < Datatypes.length l) /\ (updated = false <-> l' = l).
 Proof. exact (@remove_superseed_shrinks_proof). Qed.
 Print Assumptions C03_cleanup_loop_shrinks.
+
+From NGO Require Import Link.TerminationSpec.
+
+Theorem C03_cleanup_closure_terminates : forall a : list Cleanup.Mapping, Cleanup.transitive_closure a <> Ast.OutOfFuel.
+Proof. exact (@TerminationSpec.transitive_closure_no_outoffuel). Qed.
+Print Assumptions C03_cleanup_closure_terminates.
+
+Theorem C03_cleanup_execute_terminates : forall (ins : list Ast.pred) (prg : list Ast.stmt), CleanupExecute.execute ins prg <> Ast.OutOfFuel.
+Proof. exact (@TerminationSpec.cleanup_execute_no_outoffuel). Qed.
+Print Assumptions C03_cleanup_execute_terminates.
+
+Theorem C03_binding_body_terminates : forall (stmlist : list Ast.bodyelem) (prebound : option Binding.vset), Binding.collect_binding_information_body stmlist prebound <> Ast.OutOfFuel.
+Proof. exact (@TerminationSpec.collect_binding_information_body_no_outoffuel). Qed.
+Print Assumptions C03_binding_body_terminates.
+
+Theorem C03_binding_head_terminates : forall (h : Ast.head) (body : list Ast.bodyelem), Binding.collect_binding_information_head h body <> Ast.OutOfFuel.
+Proof. exact (@TerminationSpec.collect_binding_information_head_no_outoffuel). Qed.
+Print Assumptions C03_binding_head_terminates.
+
+Theorem C03_preprocess_terminates : forall prg : list Ast.stmt, Normalize.preprocess prg <> Ast.OutOfFuel.
+Proof. exact (@TerminationSpec.preprocess_no_outoffuel). Qed.
+Print Assumptions C03_preprocess_terminates.
+
+Theorem C03_exline_idempotent : forall prg prg' : list Ast.stmt, Normalize.exline_arithmetic prg = Ast.Ok prg' -> Normalize.exline_arithmetic prg' = Ast.Ok prg'.
+Proof. exact (@TerminationSpec.exline_arithmetic_idempotent). Qed.
+Print Assumptions C03_exline_idempotent.
+
+Theorem C03_exline_loop_two_rounds : forall (fuel : nat) (prg : list Ast.stmt), 2 <= fuel -> Normalize.exline_loop fuel prg = Normalize.exline_arithmetic prg.
+Proof. exact (@TerminationSpec.exline_loop_two_rounds). Qed.
+Print Assumptions C03_exline_loop_two_rounds.
+
+Theorem C03_optimize_none_terminates : forall prg : list Ast.stmt, Normalize.optimize_none prg <> Ast.OutOfFuel.
+Proof. exact (@TerminationSpec.optimize_none_no_outoffuel). Qed.
+Print Assumptions C03_optimize_none_terminates.
+
+Theorem C03_unused_loop_terminates : forall (fuel : nat) (ins outs : list Ast.pred) (st : Unused.ustate) (prg : list Ast.stmt), Datatypes.length prg + Unused.count_positions prg < fuel -> Unused.execute_loop fuel ins outs st prg <> Ast.OutOfFuel.
+Proof. exact (@TerminationSpec.unused_execute_loop_no_outoffuel). Qed.
+Print Assumptions C03_unused_loop_terminates.
+
+Theorem C03_unused_execute_terminates : forall (ctor_prg : list Ast.stmt) (ins outs : list Ast.pred) (prg : list Ast.stmt), UnusedExecute.execute ctor_prg ins outs prg <> Ast.OutOfFuel.
+Proof. exact (@TerminationSpec.unused_execute_no_outoffuel). Qed.
+Print Assumptions C03_unused_execute_terminates.
+
+Theorem C03_projection_execute_terminates : forall (ctor : list Ast.stmt) (ins : list Ast.pred) (prg : list Ast.stmt), ProjectionExecute.execute ctor ins prg <> Ast.OutOfFuel.
+Proof. exact (@TerminationSpec.projection_execute_no_outoffuel). Qed.
+Print Assumptions C03_projection_execute_terminates.
+
+Theorem C03_dp_init_terminates : forall (un : Globals.unames) (prg : list Ast.stmt), Dependency.dp_init un prg <> Ast.OutOfFuel.
+Proof. exact (@TerminationSpec.dp_init_no_outoffuel). Qed.
+Print Assumptions C03_dp_init_terminates.
+
+Theorem C03_add_domain_rule_terminates : forall (st : Dependency.dstate) (p : Ast.pred) (conditions : list Dependency.dr_entry), Dependency.add_domain_rule st p conditions <> Ast.OutOfFuel.
+Proof. exact (@TerminationSpec.add_domain_rule_no_outoffuel). Qed.
+Print Assumptions C03_add_domain_rule_terminates.
+
+Theorem C03_create_domain_terminates : forall (p : Ast.pred) (st : Dependency.dstate), snd (Dependency.create_domain_top p st) <> Ast.OutOfFuel.
+Proof. exact (@TerminationSpec.create_domain_top_no_outoffuel). Qed.
+Print Assumptions C03_create_domain_terminates.
+
+Theorem C03_reachable_iff : forall (g : list Dependency.edge) (n y : Ast.pred), In y (Dependency.reachable g n) <-> TerminationDependency.tc_path g n y.
+Proof. exact (@TerminationSpec.reachable_iff). Qed.
+Print Assumptions C03_reachable_iff.
